@@ -409,6 +409,15 @@ def merge_semantics(rep, rule, prog, cg):
             # a replacing call counts only when it is applied to (something borrowed from) `value` itself
             if cs.name in ('replace_with', 'merge_one_copy', 'merge', 'clear') and m in ('bytes', 'string', 'faststr') and any(from_value(a) for a in cs.args()):
                 events.add(cs.bb)
+            # `decode(..).map(|v| *value = v)`: the closure runs exactly when the result is Ok and stores through its
+            # captured `value`
+            if cs.name in ('map', 'and_then', 'inspect') and re.search(r'Result(::)?<', cs.callee):
+                for a in cs.args():
+                    if a[0] == 'agg' and a[1].startswith('Closure:') and any(from_value(o) for o in a[2]):
+                        cb = prog.bodies.get(mer.crate + '::' + a[1][len('Closure:'):])
+                        if cb is not None and any(st.get('p') and st['p']['l'] == 1 and '*' in st['p']['p'] and any(isinstance(e, dict) and 'f' in e for e in st['p']['p'])
+                                                  for bb in cb.bbs if not bb['cleanup'] for st in bb['st']):
+                            events.add(cs.bb)
         # every way to an Ok result passes such a block (an assignment under a condition lets an earlier occurrence survive)
         import skippers
         oks = set(skippers._ok_exit_blocks(mer))
@@ -540,8 +549,16 @@ def wrappers(rep, rule, prog, cg):
 
         def enc_calls(b):
             out = []
+            # private helpers of prost::types (a shared `if tag == 1 { merge(..) } else { skip_field(..) }` body that takes
+            # the codec function as an argument) are read through
+            b = mirlib.inline_calls(b, lambda cs, callee: callee.vis != 'Public' and callee.crate == 'pilota' and callee.key.startswith('prost::types::') and not callee.impl_trait)
             for cs in b.calls():
-                m = re.search(r'prost::encoding::(\w+)::(\w+)$', cs.callee)
+                target = cs.callee
+                if cs.name in ('call_once', 'call', 'call_mut') and cs.t['args']:
+                    f = mirlib.strip_refs(cs.arg(0))
+                    if f[0] == 'fnref':
+                        target = f[1]
+                m = re.search(r'prost::encoding::(\w+)::(\w+)$', target)
                 if m and m.group(2) != 'skip_field':
                     out.append((m.group(1), m.group(2), sorted((show(nosite(g[0])), str(g[1])) for g in b.edge_guards(cs.bb))))
             return out
